@@ -11,7 +11,10 @@ from .common import Report, finish
 
 PROPS = {
     "C01": "analysis.props.p_c01",
+    "C02": "analysis.props.p_c02",
+    "C03": "analysis.props.p_c03",
     "C04": "analysis.props.p_c04",
+    "C05": "analysis.props.p_c05",
     "C06": "analysis.props.p_c06",
     "C07": "analysis.props.p_c07",
     "C08": "analysis.props.p_c08",
@@ -20,6 +23,7 @@ PROPS = {
     "C11": "analysis.props.p_c11",
     "C12": "analysis.props.p_c12",
     "C13": "analysis.props.p_c13",
+    "C14": "analysis.props.p_c14",
     "C15": "analysis.props.p_c15",
     "C16": "analysis.props.p_c16",
     "C18": "analysis.props.p_c18",
